@@ -118,9 +118,14 @@ def check_inputs(net, spec, res, ops=None):
         res["evals"] += 1
         vio += monitored(net, lambda: apply(sd, q), res, case)
     # the numeric configuration fields at their smallest values (work bounds must hold for every option / limit combination)
-    for cfg in ({"minimum_simulation_budget": 0}, {"minimum_simulation_budget": 1}, {"retained_set_optimization_threshold": 0},
-                {"retained_set_optimization_threshold": 1}, {"nfvs_size_threshold": 0}, {"attractor_candidates_limit": 2},
-                {"minimum_simulation_budget": 0, "retained_set_optimization_threshold": 1}):
+    cfgs = ({"minimum_simulation_budget": 0}, {"minimum_simulation_budget": 1}, {"retained_set_optimization_threshold": 0},
+            {"retained_set_optimization_threshold": 1}, {"nfvs_size_threshold": 0}, {"attractor_candidates_limit": 2},
+            {"minimum_simulation_budget": 0, "retained_set_optimization_threshold": 1})
+    # the configuration star runs on the small universes and on the multi-attractor catalogues (where candidates survive to
+    # the simulation / regeneration stages); elsewhere only the simulation budget is varied
+    if not (net.n <= 2 or spec[0] == "k" or len(net.attractors) >= 2 and net.n <= 3 and hash(repr(spec)) % 4 == 0):
+        cfgs = cfgs[:1]
+    for cfg in cfgs:
         for ops in ((("seeds", 0),), (("cand", 0, True, True),), (("bfs", None, None, None), ("allseeds",))):
             case = {"net": list(spec), "config": cfg, "ops": [list(o) for o in ops]}
             sd = new_sd(net, cfg)
